@@ -91,6 +91,12 @@ fn run_thor(cw: &mut CaseWriter, bindir: &str, label: &str, file: &Path, tmp: &P
     let mut outs = vec![];
     for (k, flags) in [vec![], vec!["-v"], vec!["-v", "-v"]].iter().enumerate() {
         let outp = tmp.join(format!("thor-{}-{}.json", label.replace([':', '/'], "_"), k));
+        // the file named with -o may exist already: longer than what is written (k = 1) or shorter (k = 2)
+        match k {
+            1 => std::fs::write(&outp, vec![b'#'; 8 << 20]).ok(),
+            2 => std::fs::write(&outp, b"{\"old\": true}").ok(),
+            _ => None,
+        };
         let mut cmd = Command::new(format!("{bindir}/thor"));
         cmd.arg(file).arg("-o").arg(&outp);
         for f in flags {
